@@ -152,6 +152,14 @@ def index_vs_log(fs, dump):
     return None
 
 
+def refs_of(data):
+    """oids referenced by a record (also when a HexStorage wrapper stored it hex-encoded)"""
+    if data[:2] == b'.h':
+        import binascii
+        data = binascii.a2b_hex(data[2:])
+    return referencesf(data)
+
+
 def reachable_at(fs, bound):
     """{oid: (data, serial, end)} of everything reachable from the root in the snapshot before `bound`"""
     seen, todo = {}, [z64]
@@ -168,7 +176,7 @@ def reachable_at(fs, bound):
             seen[oid] = None
             continue
         seen[oid] = r
-        todo.extend(referencesf(r[0]))
+        todo.extend(refs_of(r[0]))
     return seen
 
 
@@ -211,10 +219,26 @@ def mk_pair(v, seq):
     return PersistentMapping(v=v, seq=seq)
 
 
+def open_storage(path, P, **kw):
+    """the FileStorage + DB of a scenario along one of the construction paths: direct constructor or
+    ZODB.config, pack_keep_old / pack_gc true or false, optionally under a HexStorage wrapper"""
+    keep, gc = P.get('keep_old', True), P.get('pack_gc', True)
+    if P.get('ctor') == 'config' and not kw:
+        from ZODB.config import databaseFromString
+        db = databaseFromString(
+            '<zodb>\n<filestorage>\npath %s\npack-keep-old %s\npack-gc %s\n</filestorage>\n</zodb>\n'
+            % (path, 'true' if keep else 'false', 'true' if gc else 'false'))
+        return db.storage, db
+    fs = FileStorage(path, pack_keep_old=keep, pack_gc=gc, **kw)
+    if P.get('hex'):
+        from ZODB.tests.hexstorage import HexStorage
+        return fs, ZODB.DB(HexStorage(fs))
+    return fs, ZODB.DB(fs)
+
+
 def build_db(path, P, clk, **kw):
     """create Data.fs with a small history; returns (fs, db, info).  P: dict of scenario parameters."""
-    fs = FileStorage(path, pack_keep_old=P.get('keep_old', True), **kw)
-    db = ZODB.DB(fs)
+    fs, db = open_storage(path, P, **kw)
     info = {}
     c = db.open()
     r = c.root()
@@ -238,8 +262,7 @@ def build_db(path, P, clk, **kw):
     c.close()
     if P.get('reopen'):             # leave a saved index with a real position behind
         db.close()
-        fs = FileStorage(path, pack_keep_old=P.get('keep_old', True), **kw)
-        db = ZODB.DB(fs)
+        fs, db = open_storage(path, P, **kw)
     if P.get('prepack'):            # a previous pack leaves Data.fs.old (keep_old) behind
         c = db.open()
         c.root()['A']['v'] = c.root()['B']['v'] = 70
@@ -410,6 +433,221 @@ def hook_vfs(rec, note):
     rec.on_event = on_event
 
 
+def install_hook_yields(fs):
+    """extra yield points in windows that contain no lock or raw file operation: the index lookup of a load,
+    the unlocked `_pos` read of the packer (getSize), emptying the reader pool.  Returns an undo function."""
+    cls = type(fs)
+    orig_lookup = cls._lookup_pos
+    orig_getsize = fs.getSize
+    pool = fs._files
+    orig_empty = pool.empty
+
+    def yp(label):
+        s = sched._current
+        if s is not None:
+            s.yield_point('hook', label)
+
+    def _lookup_pos(self, oid):
+        yp('lookup_pos')
+        r = orig_lookup(self, oid)
+        yp('lookup_pos-done')
+        return r
+
+    def getSize():
+        yp('getSize')
+        r = orig_getsize()
+        yp('getSize-done')
+        return r
+
+    def empty():
+        yp('pool-empty')
+        return orig_empty()
+    cls._lookup_pos = _lookup_pos
+    fs.getSize = getSize
+    pool.empty = empty
+
+    def undo():
+        cls._lookup_pos = orig_lookup
+    return undo
+
+
+def api_reader(fs, oids, init_recs, n, out):
+    """storage-level reader of every kind: load, loadBefore, loadSerial, getTid, history, iterator,
+    record_iternext, undoLog, lastTransaction, len — records what it saw for the post-hoc oracle"""
+    def f():
+        maxb = b'\xff' * 8
+        for i in range(n):
+            for oid in oids:
+                for call in ('load', 'loadBefore', 'getTid', 'history'):
+                    try:
+                        if call == 'load':
+                            d, t = fs.load(oid, '')
+                            out.append(('rev', call, oid, t, d))
+                        elif call == 'loadBefore':
+                            r = fs.loadBefore(oid, maxb)
+                            out.append(('rev', call, oid, r[1], r[0]))
+                            if r[2] is not None:
+                                out.append(('err', call, 'end tid on the newest revision'))
+                        elif call == 'getTid':
+                            out.append(('tid', call, oid, fs.getTid(oid)))
+                        else:
+                            h = fs.history(oid, size=4)
+                            ts = [e['tid'] for e in h]
+                            if ts != sorted(ts, reverse=True) or not ts:
+                                out.append(('err', call, 'history not newest-first / empty'))
+                            for t in ts:
+                                out.append(('tid', call, oid, t))
+                    except Exception as e:      # noqa: B902
+                        out.append(('exc', call, type(e).__name__))
+            for (oid, tid), data in init_recs[-3:]:
+                try:
+                    out.append(('rev', 'loadSerial', oid, tid, fs.loadSerial(oid, tid)))
+                except Exception as e:          # noqa: B902
+                    out.append(('exc', 'loadSerial', type(e).__name__))
+            try:
+                last = None
+                it = fs.iterator()
+                try:
+                    for t in it:
+                        if last is not None and t.tid <= last:
+                            out.append(('err', 'iterator', 'tids not increasing'))
+                        last = t.tid
+                        for x in t:
+                            if x.data is not None:
+                                out.append(('rev', 'iterator', x.oid, x.tid, x.data))
+                finally:
+                    it.close()
+            except Exception as e:              # noqa: B902
+                out.append(('exc', 'iterator', type(e).__name__))
+            try:
+                nxt, prev = None, None
+                while True:
+                    oid, tid, data, nxt = fs.record_iternext(nxt)
+                    if prev is not None and oid <= prev:
+                        out.append(('err', 'record_iternext', 'oids not increasing'))
+                    prev = oid
+                    out.append(('rev', 'record_iternext', oid, tid, data))
+                    if nxt is None:
+                        break
+            except Exception as e:              # noqa: B902
+                out.append(('exc', 'record_iternext', type(e).__name__))
+            try:
+                fs.undoLog(0, 4)
+            except UndoError:
+                out.append(('ok', 'undoLog-refused'))
+            except Exception as e:              # noqa: B902
+                out.append(('exc', 'undoLog', type(e).__name__))
+            try:
+                fs.lastTransaction(), len(fs), fs.getSize()
+            except Exception as e:              # noqa: B902
+                out.append(('exc', 'misc', type(e).__name__))
+        return len(out)
+    return f
+
+
+def k_committer(fs, template, n, big, done):
+    """storage-level two-phase commits of the less-travelled kinds while the pack runs: store of a new
+    object, restore with a prev_txn hint (back pointer), deleteObject, an empty transaction, a record larger
+    than 64 KiB.  `done` collects (tid, kind, oid, data or None) of every commit that returned."""
+    from ZODB.Connection import TransactionMetaData
+
+    def f():
+        out = []
+        mine = []           # [oid, tid, data] of objects this thread created (current state)
+        for i in range(n):
+            kind = ('store', 'restore', 'big' if big else 'store', 'delete', 'empty')[i % 5]
+            t = TransactionMetaData(u'k', u'%s %d' % (kind, i))
+            try:
+                fs.tpc_begin(t)
+                rec = None
+                if kind in ('store', 'big'):
+                    oid = fs.new_oid()
+                    data = template + (b'x' * (70000 + 1000 * i) if kind == 'big' else b'')
+                    fs.store(oid, z64, data, '', t)
+                    rec = [oid, None, data]
+                elif kind == 'restore' and mine and mine[-1][2] is not None:
+                    oid = fs.new_oid()
+                    src = mine[-1]
+                    fs.restore(oid, fs._tid, src[2], '', src[1], t)     # same pickle: a back pointer
+                    rec = [oid, None, src[2]]
+                elif kind == 'delete' and mine and mine[0][2] is not None:
+                    fs.deleteObject(mine[0][0], mine[0][1], t)
+                    rec = [mine[0][0], None, None]
+                fs.tpc_vote(t)
+                tid = fs.tpc_finish(t)
+                if rec is not None:
+                    rec[1] = tid
+                    if kind == 'delete':
+                        mine[0] = rec
+                    else:
+                        mine.append(rec)
+                    done.append((tid, kind, rec[0], rec[2]))
+                else:
+                    done.append((tid, 'empty', None, None))
+                out.append(kind)
+            except Exception as e:              # noqa: B902
+                try:
+                    fs.tpc_abort(t)
+                except Exception:               # noqa: B902
+                    pass
+                out.append('raised:%s:%s:%s' % (kind, type(e).__name__, e))
+        return out
+    return f
+
+
+def verify_extras(obs, fs, T, init_recs, api_out, kdone, final_dump):
+    """oracle for the api reader and the storage-level committer"""
+    pr = []
+    ref = dict(init_recs)
+    for t in final_dump:
+        for oid, data in t[5]:
+            ref[(oid, t[0])] = data
+    tids_of = {}
+    for (oid, tid) in ref:
+        tids_of.setdefault(oid, set()).add(tid)
+    for o in api_out:
+        if o[0] == 'rev':
+            _, call, oid, tid, data = o
+            if ((oid, tid) in ref and ref[(oid, tid)] != data) or ((oid, tid) not in ref and tid > T):
+                pr.append(('api-wrong:%s' % call, '%s returned a revision (%s, %s) that was never committed / with '
+                           'other data' % (call, oid.hex()[-4:], tid.hex()[-6:])))
+        elif o[0] == 'tid':
+            _, call, oid, tid = o
+            if tid > T and tid not in tids_of.get(oid, ()):
+                pr.append(('api-wrong:%s' % call, '%s reports tid %s for %s which no committed revision has'
+                           % (call, tid.hex()[-6:], oid.hex()[-4:])))
+        elif o[0] == 'err':
+            pr.append(('api-wrong:%s' % o[1], o[2]))
+        elif o[0] == 'exc':
+            # loadSerial of a revision at or before the pack time may be gone; everything else must work
+            # (record_iternext raises POSKeyError at an object whose newest record is a deletion — with or
+            #  without a pack; the storage-level committer deletes objects)
+            if not (o[1] == 'loadSerial' and o[2] == 'POSKeyError') and not (
+                    o[1] == 'record_iternext' and o[2] == 'POSKeyError' and any(k[1] == 'delete' for k in kdone)):
+                pr.append(('api-error:%s:%s' % (o[1], o[2]), 'storage call %s raised %s during the pack' % (o[1], o[2])))
+    present = {t[0]: t for t in final_dump}
+    lastk = {}
+    for tid, kind, oid, data in kdone:
+        if tid <= T:
+            continue
+        if tid not in present:
+            pr.append(('lost-commit', 'the %s transaction %s committed at storage level is not stored' % (kind, tid.hex()[-6:])))
+        elif oid is not None and (oid, data) not in present[tid][5]:
+            pr.append(('wrong-data', 'the %s transaction %s does not hold its record' % (kind, tid.hex()[-6:])))
+        if oid is not None:
+            lastk[oid] = (tid, data)
+    for oid, (tid, data) in lastk.items():
+        try:
+            got = fs.load(oid, '')
+        except POSKeyError:
+            got = None
+        if (got if data is not None else None) != ((data, tid) if data is not None else None) or \
+                (data is None and got is not None):
+            pr.append(('wrong-data', 'object %s written by a %s commit loads %r' % (
+                oid.hex()[-4:], 'delete' if data is None else 'store/restore', got and got[1].hex()[-6:])))
+    return pr
+
+
 def run_sched_case(P, tmp, schedule=None):
     """P: parameters (json-able).  Returns observation dict (json-able except bytes → hex)."""
     _install_read_hooks()
@@ -551,7 +789,31 @@ def run_sched_case(P, tmp, schedule=None):
             return out
 
         rec.events.clear()
-        init_tids = [t.tid for t in fs.iterator()]
+        init_dump = txn_dump(fs)
+        init_tids = [t[0] for t in init_dump]
+        init_recs = [((oid, t[0]), data) for t in init_dump for oid, data in t[5] if data is not None]
+        c = db.open()
+        watched = [z64] + [c.root()[n]._p_oid for n in ('A', 'B', 'C1')]
+        template = fs.load(c.root()['C1']._p_oid, '')[0]
+        c.close()
+        api_out, kdone = [], []
+        undo_hooks = install_hook_yields(fs) if P.get('hooks') else None
+        hist_at = init_tids[-1] if (P.get('hist') and P.get('ptime', 'mid') == 'mid' and P.get('post', 2) >= 1) else None
+
+        def hist_reader():
+            c = db.open(at=hist_at)
+            out = []
+            try:
+                for i in range(3):
+                    try:
+                        r = c.root()
+                        out.append((r['A']['v'], r['B']['v']))
+                    except Exception as e:      # noqa: B902
+                        out.append('raised:%s' % type(e).__name__)
+                    c.cacheMinimize()
+            finally:
+                c.close()
+            return out
         _READ_YIELD[0] = bool(P.get('read_yield'))
         policy = None
         crole = fs._commit_lock.role
@@ -592,7 +854,17 @@ def run_sched_case(P, tmp, schedule=None):
             s.spawn('r', reader)
         if P.get('second'):
             s.spawn('q', packer('q', attempts=int(P['second'])))
-        res = s.run(timeout=60)
+        if P.get('api'):
+            s.spawn('a', api_reader(fs, watched, init_recs, int(P['api']), api_out))
+        if P.get('kcommit'):
+            s.spawn('k', k_committer(fs, template, int(P['kcommit']), P.get('pad', 0) >= 3000, kdone))
+        if hist_at is not None:
+            s.spawn('h', hist_reader)
+        try:
+            res = s.run(timeout=60)
+        finally:
+            if undo_hooks is not None:
+                undo_hooks()
         _READ_YIELD[0] = False
         rec.on_event = None
         note.s = None
@@ -609,7 +881,22 @@ def run_sched_case(P, tmp, schedule=None):
         problems = []
         if not res['deadlock']:
             try:
-                problems = verify_sched(obs, fs, db, path, P, tmp)
+                Tb = T[0]
+                extras = []
+                if P.get('api') or P.get('kcommit'):
+                    extras = verify_extras(obs, fs, Tb, init_recs, api_out, kdone, txn_dump(fs))
+                    for o in (res['results'].get('k') or []):
+                        if o.startswith('raised'):
+                            extras.append(('commit-error:%s' % o.split(':')[2], 'storage-level %s' % o))
+                if hist_at is not None:
+                    want = (60 + P.get('post', 2) - 1,) * 2
+                    for o in (res['results'].get('h') or ['missing']):
+                        if tuple(o) != want if not isinstance(o, str) else True:
+                            extras.append(('historical-reader', 'a historical connection after the pack time read %r, '
+                                           'expected %r' % (o, want)))
+                obs['api_calls'] = len(api_out)
+                obs['ktids'] = [k[0].hex() for k in kdone]
+                problems = extras + verify_sched(obs, fs, db, path, P, tmp)
             except Exception as e:      # noqa: B902
                 problems = [('verify-raised:%s' % type(e).__name__, repr(e))]
         try:
@@ -715,7 +1002,8 @@ def verify_sched(obs, fs, db, path, P, tmp):
     for tid, k, w in ret:
         if tid > T and tid not in tids:
             pr.append(('lost-commit', 'commit %s of committer %d returned but is not stored' % (tid.hex(), k)))
-    known = set(bytes.fromhex(t) for t in obs['init_tids']) | set(t for t, _, _ in ret)
+    known = set(bytes.fromhex(t) for t in obs['init_tids']) | set(t for t, _, _ in ret) | \
+        set(bytes.fromhex(t) for t in obs.get('ktids', []))
     nundo = len([1 for t, _, w in obs['returned'] if w == 'undo'])
     phantom = [t for t in tids if t not in known]
     if len(phantom) > nundo:
@@ -2013,6 +2301,19 @@ def gen_sched_params(rng, i):
         P.update(directed=3, second=3)
     elif P.get('second') and i % 2:
         P['second'] = 3     # several attempts by the second packer thread, random schedule
+    # generalisation pass: construction paths, wrappers, extra reader / committer kinds, hook yield points
+    P.update(pack_gc=rng.choice([True, True, False]), ctor=rng.choice(['direct', 'direct', 'config']),
+             hooks=rng.choice([0, 1]), hist=rng.choice([0, 1]))
+    if P['ctor'] == 'direct':
+        P['hex'] = rng.choice([0, 0, 1])
+    if i % 3 == 1:
+        P['api'] = rng.choice([1, 2])
+    if i % 4 == 2 and not P.get('directed'):
+        P['kcommit'] = rng.choice([3, 5, 6])
+        if P.get('pad', 0) < 3000 and rng.random() < 0.5:
+            P['pad'] = 3000     # makes the storage-level committer write a record larger than 64 KiB
+    if i % 7 == 6:
+        P['pad'] = 70000        # DB-level commits larger than 64 KiB during copyRest (utils.cp chunking)
     return P
 
 
@@ -2087,7 +2388,8 @@ def proto_lines(obs):
     its unlocked file_end snapshot, which the lock-event log cannot order)"""
     P = obs['P']
     res = obs['results']
-    if P.get('second') or P.get('undo') or obs['deadlock'] or res.get('p') != 'ok' or obs['problems']:
+    if P.get('second') or P.get('undo') or obs['deadlock'] or res.get('p') != 'ok' or obs['problems'] or \
+            P.get('kcommit'):
         return None
     crole, lrole = obs['roles']['commit'], obs['roles']['lock']
     T = bytes.fromhex(obs['T'])
